@@ -202,6 +202,9 @@ where
         // Validate welcome event structure per MIP-02
         Self::validate_welcome_event(rumor_event)?;
 
+        // A rumor without an id can never be stored: refuse it before anything is written
+        let rumor_event_id = rumor_event.id.ok_or(Error::MissingRumorEventId)?;
+
         if let Some(processed_welcome) = self
             .storage()
             .find_processed_welcome_by_event_id(wrapper_event_id)
@@ -287,8 +290,6 @@ where
             state: welcome_types::ProcessedWelcomeState::Processed,
             failure_reason: None,
         };
-
-        let rumor_event_id = rumor_event.id.ok_or(Error::MissingRumorEventId)?;
 
         let welcome = welcome_types::Welcome {
             id: rumor_event_id,
